@@ -52,7 +52,7 @@ int *refs(int i) {
 // Every op is carried out by this object (which is never destructed), so that the begin/end records are written even
 // when the object the op is about destructs itself half-way (call_other from a destructed object silently does nothing).
 // script: op | a << 8 | b << 16
-//  1 fail   2 move(a -> b)   3 destruct(a)   4 load a (0|1)   5 clone /c08/a   6 `who` becomes living
+//  1 fail   2 move(a -> b)   3 destruct(a)   4 load a (0|1)   5 clone /c08/a   6 `who` becomes living   9 a calls set_heart_beat(1)
 void perform(int who, int s) {
   int op = s & 0xff, a = (s >> 8) & 0xff, b = (s >> 16) & 0xff;
   object x, y;
@@ -73,6 +73,7 @@ void perform(int who, int s) {
     case 5: add(({ "clone-begin", who, "/c08/a" })); clone_object("/c08/a"); add(({ "clone-end", who, "/c08/a" })); break;
     case 6: x = ob(who); if (x) { x->raw_living(lname(who)); add(({ "living", who, lname(who) })); } break;
     case 7: x = ob(who); if (x) { x->raw_timers(); add(({ "timers", who })); } break;
+    case 9: x = ob(a); if (x) { x->raw_hb(); add(({ "hb-on", who, a })); } else add(({ "nop", who, op, a, b })); break;
     case 8: x = ob(who); if (x) { add(({ "cmd-begin", who })); a = x->raw_command(); add(({ "cmd-end", who, a })); } break;
   }
 }
